@@ -332,6 +332,13 @@ impl Check for C14 {
             let d = doc::gen_doc(&mut r, &o);
             emit(Case::with("rawkey", d, &[r.next() as i64]));
         }
+        // members of a few MiB to skip, with multi-byte characters (or one ill-formed sequence)
+        // across the multiples of 256 KiB
+        for j in 0..crate::gen::bigutf8::VARIANTS {
+            if g.mine(7100 + j as u64) && (g.scale >= 0.5 || j % 8 == 0) {
+                emit(Case::with("big-utf8", vec![], &[j as i64]));
+            }
+        }
         // a sibling nested beyond the limit (255) with garbage deep inside, the target behind it
         {
             let mut idx = 0u64;
@@ -375,6 +382,14 @@ impl Check for C14 {
                 ctx.class("mode:every-prefix-and-substitution");
                 ctx.sample("every-prefix-and-subst");
             }
+            "big-utf8" => {
+                let (m, _) = crate::gen::bigutf8::make(c.p(0) as usize);
+                let paths = vec![vec![PathEl::Key("t".into())], vec![PathEl::Key("arr".into()), PathEl::Idx(1)], vec![PathEl::Key("s".into())]];
+                ctx.nontrivial();
+                ctx.class("mode:big-utf8");
+                check_input(ctx, &m, &paths);
+                ctx.sample("big-utf8");
+            }
             "deep-sibling" => {
                 let (depth, junk) = (c.p(0) as usize, c.p(1) as usize);
                 let inner: &[u8] = [&b"oops"[..], b"1 2", b"tru", b"\"a\nb\"", b"\"\\q\"", b"01", b"1,", b"{\"k\" 1}", b"}{", b"7"][junk % 10];
@@ -415,6 +430,6 @@ impl Check for C14 {
         }
     }
     fn required_classes(&self, _b: &str, _t: Tier) -> Vec<&'static str> {
-        vec!["returned:value", "returned:error", "returned:iter-item", "mode:every-prefix-and-substitution", "mode:mutated", "mode:raw-byte-in-key", "mode:deep-sibling"]
+        vec!["returned:value", "returned:error", "returned:iter-item", "mode:every-prefix-and-substitution", "mode:mutated", "mode:raw-byte-in-key", "mode:deep-sibling", "mode:big-utf8"]
     }
 }
